@@ -78,7 +78,7 @@ def plot_burst_detect_summary(df_features, sig, fs, threshold_kwargs, xlim=None,
 
     # Normalize signal
     sig_full = zscore(sig)
-    times_full = np.arange(0, len(sig_full) / fs, 1 / fs)
+    times_full = np.arange(len(sig_full)) / fs
 
     # Limit arrays and dataframe
     if xlim is not None:
@@ -219,7 +219,7 @@ def plot_burst_detect_param(df_features, sig, fs, burst_param, thresh,
     color = kwargs.pop('color', 'r')
 
     # Determine time array and limits
-    times = np.arange(0, len(sig) / fs, 1 / fs)
+    times = np.arange(len(sig)) / fs
 
     if ax is None:
         fig, ax = plt.subplots(figsize=figsize)
